@@ -101,3 +101,29 @@ Definition c12_check : bool :=
   (match Specifier [126;61;49], Specifier [62;61;49;46;48;43;97] with None, None => true | _, _ => false end).
 Example C12_nonvacuous : c12_check = true.
 Proof. vm_compute. reflexivity. Qed.
+
+(* ---------------- proved with the specifier and requirement models in the improvement round; restated here ---------------- *)
+Require SpecAdmit ReqClauseP ReqModel ReqSpec.
+(* 10. the operator / version-form table, complete in SEMANTIC terms: every version text Version() accepts whose version the operator
+       admits (no local label for the ordering operators and ~=, two release components for ~=) is an accepted specifier after that
+       operator; likewise V.* after == / != for a plain release, and any text of non-blank characters after === *)
+Theorem C12_form_table_complete o t V : Version t = Some V -> SpecAdmit.admits o V ->
+  exists sp, Specifier (op_txt o ++ t) = Some sp /\ sp_op sp = o.
+Proof. exact (SpecAdmit.form_table_complete o t V). Qed.
+Print Assumptions C12_form_table_complete.
+Theorem C12_form_table_complete_wildcard o t V : (o = OEq \/ o = ONe) -> Version t = Some V -> SpecSem.plain V ->
+  (forall u c, t = u ++ [c] -> is_ws c = false) ->
+  exists sp, Specifier (op_txt o ++ t ++ [46; 42]) = Some sp /\ sp_op sp = o.
+Proof. exact (SpecAdmit.form_table_complete_wild o t V). Qed.
+Print Assumptions C12_form_table_complete_wildcard.
+Theorem C12_form_table_complete_arbitrary t : forallb arb_char t = true ->
+  Specifier (op_txt OArb ++ t) = Some {| sp_op := OArb; sp_text := t |}.
+Proof. exact (SpecAdmit.form_table_complete_arbitrary t). Qed.
+Print Assumptions C12_form_table_complete_arbitrary.
+(* 11. a version clause inside a requirement is accepted exactly when Specifier accepts it: for a clause that starts with an operator
+       character, carries no surrounding blanks, no comma and no semicolon, after any valid name *)
+Theorem C12_clause_in_requirement name cl sp : ReqSpec.rq_valid_ident name = true -> hd_is ReqClauseP.rq_op_start cl = true ->
+  ReqModel.rq_strip cl = cl -> ReqSpec.rq_no_comma cl = true -> ReqClauseP.rq_no_semi cl = true ->
+  (Specifier cl = Some sp <-> exists r, ReqModel.Requirement (name ++ cl) = ReqModel.RqOk r /\ ReqModel.q_specs r = [sp]).
+Proof. exact (ReqClauseP.clause_in_requirement name cl sp). Qed.
+Print Assumptions C12_clause_in_requirement.
